@@ -122,6 +122,17 @@ def transpile_token(
                 temp += char
         return indent_str(f'stack.append("{temp}")', indent)
     elif token.name == TokenType.NUMBER:
+        if (
+            "°" not in token.value
+            and any(char.isdigit() for char in token.value)
+            and not (token.value.isdigit() and len(token.value) <= 3)
+        ):
+            # A real literal is exactly the rational it spells. nsimplify
+            # parses the text as a 15-digit float and then searches for a
+            # closed form, which is only exact for integers up to 1000.
+            return indent_str(
+                f'stack.append(sympy.Rational("{token.value}"))', indent
+            )
         parts = [
             "0.5" if part == "." else part for part in token.value.split("°")
         ]
